@@ -388,8 +388,9 @@ def check_refusals(case, ctx: Ctx):
         ctx.refused("c / h", lambda: 2.0 / h)
         ctx.refused("c / h (int)", lambda: 1 / h)
     elif kind == "negative":
-        if not np.any(np.asarray(h.frequencies) != 0):
-            return
+        if not np.any(np.asarray(h.frequencies) != 0) and not any((not math.isnan(x)) and x != 0 for x in before["missed"]):
+            return  # (nothing recorded at all: -0 is 0)
+        # (all-zero contents with recorded underflow / overflow / missed: those counts would turn negative)
         c = case["c"]
         ctx.refused(f"h * {c}", lambda: h * c)
         ctx.refused(f"{c} * h", lambda: c * h)
@@ -417,6 +418,15 @@ def check_refusals(case, ctx: Ctx):
 def refusal_cases(draw, tier="quick"):
     kind = draw(st.sampled_from(["h*h", "h/h", "c/h", "negative", "negative", "array", "list", "array0d"]))
     spec = draw(hgen.hist_spec(dims=(1, 2, 3), dtypes=["int64", "float64", "int32", "float32"], adaptive=False, allow_zero=draw(st.booleans())))
+    if kind == "negative" and draw(st.integers(0, 2)) == 0:
+        # nothing inside the bins, something recorded outside them
+        def zero(x):
+            return [zero(y) for y in x] if isinstance(x, list) else 0
+
+        spec["freq"] = zero(spec["freq"])
+        spec["err2"] = None
+        spec["missed"] = [2, 1, 0] if len(spec["axes"]) == 1 else [3]
+        spec["keep_missed"] = True
     return {"kind": kind, "spec": spec, "c": draw(st.sampled_from([-1, -2.5, -0.5, np.float64(-3.0).item()])),
             "prelude": draw(st.sampled_from([None, None, "normal", "exception", "nested"]))}
 
